@@ -8,3 +8,156 @@ LEAVES = [
 # round 2: the condensed-vector length `from_partials` allocates for `n_patterns` conditions
 LEAVES.append(dict(name='fpVectorLen', file='rdm/combine.py', func='from_partials', kind='assign',
                    target='vector_len', count=1, params={'n_patterns': 'Nat'}, ret='Nat'))
+
+
+# ---------------------------------------------------------------------------------------------
+# round 3: leaves derived from *array* expressions of the anchored files.  As `leaves/C18.py`
+# does, this module first derives (Python `ast`, from the source tree under check) the scalar
+# entry-wise expression and writes it as a tiny Python function into
+# `harness/leaves/_C10_derived.py`; py2lean then translates those functions as usual.  Nothing is
+# cached; each derivation fails closed (`__underivable__` → untranslatable leaf = broken obligation).
+#
+#   b2v_len        batch_to_vectors, 3-D branch: `v = np.ndarray((n_rdm, <E>))`            -> <E>
+#   pair_selected  RDMs.subset_pattern: `selection_xy = pattern_in_value[ix] <op> pattern_in_value[iy]`
+#                  (`&` -> and, `|` -> or) on 0/1 mask values
+#   triu_offset    the diagonal offset k of `np.triu_indices(self.n_cond, k)` in subset_pattern and of
+#                  `numpy.triu_indices(len(dvals), k)` in rdms_to_df (both must be the same literal)
+#   sel_cmp        the comparison that selects positions in subsample / subsample_pattern / bool_index
+#                  (`d == i`, `desc == i`, `descriptor == v`: all must be the same operator),
+#                  as a function of two integer codes
+import ast as _ast
+import os as _os
+
+_SRC = _os.environ.get('RSA_REPO_SRC', '/repo/src/rsatoolbox')
+_HERE = _os.path.dirname(_os.path.abspath(__file__))
+DERIVED = _os.path.join(_HERE, '_C10_derived.py')
+
+
+class _Underivable(Exception):
+    pass
+
+
+def _func(path, name):
+    tree = _ast.parse(open(_os.path.join(_SRC, path)).read())
+    for node in _ast.walk(tree):
+        if isinstance(node, _ast.FunctionDef) and node.name == name:
+            return node
+    raise _Underivable(f'{path}: function {name} not found')
+
+
+def _assigns(fn, target):
+    hits = [n for n in _ast.walk(fn) if isinstance(n, _ast.Assign) and len(n.targets) == 1
+            and _ast.unparse(n.targets[0]).strip('()') == target]
+    hits.sort(key=lambda n: n.lineno)
+    return hits
+
+
+def _b2v_len():
+    fn = _func('util/rdm_utils.py', 'batch_to_vectors')
+    hits = [n for n in _assigns(fn, 'v') if isinstance(n.value, _ast.Call)
+            and _ast.unparse(n.value.func) == 'np.ndarray']
+    if len(hits) != 1:
+        raise _Underivable(f'expected one `v = np.ndarray(...)`, found {len(hits)}')
+    args = hits[0].value.args
+    if len(args) != 1 or not isinstance(args[0], _ast.Tuple) or len(args[0].elts) != 2 \
+            or _ast.unparse(args[0].elts[0]) != 'n_rdm':
+        raise _Underivable(f'shape of v is not (n_rdm, E): `{_ast.unparse(hits[0].value)}`')
+    return _ast.unparse(args[0].elts[1])
+
+
+def _pair_selected():
+    fn = _func('rdm/rdms.py', 'subset_pattern')
+    hits = _assigns(fn, 'selection_xy')
+    if len(hits) != 1:
+        raise _Underivable(f'expected one assignment to selection_xy, found {len(hits)}')
+    e = hits[0].value
+    if not (isinstance(e, _ast.BinOp) and _ast.unparse(e.left) == 'pattern_in_value[ix]'
+            and _ast.unparse(e.right) == 'pattern_in_value[iy]'):
+        raise _Underivable(f'selection_xy is not `pattern_in_value[ix] <op> pattern_in_value[iy]`: '
+                           f'`{_ast.unparse(e)}`')
+    op = {_ast.BitAnd: 'and', _ast.BitOr: 'or'}.get(type(e.op))
+    if op is None:
+        raise _Underivable(f'operator {type(e.op).__name__} in selection_xy')
+    ixiy = _assigns(fn, 'ix, iy')
+    if len(ixiy) != 1 or not _ast.unparse(ixiy[0].value).startswith('np.triu_indices(self.n_cond'):
+        raise _Underivable('`ix, iy = np.triu_indices(self.n_cond, k)` not found')
+    return f'(1 if (a == 1 {op} b == 1) else 0)'
+
+
+def _triu_offset():
+    ks = []
+    for path, name in (('rdm/rdms.py', 'subset_pattern'), ('io/pandas.py', 'rdms_to_df')):
+        fn = _func(path, name)
+        calls = [n for n in _ast.walk(fn) if isinstance(n, _ast.Call)
+                 and _ast.unparse(n.func).endswith('triu_indices')]
+        if len(calls) != 1:
+            raise _Underivable(f'{name}: expected one triu_indices call, found {len(calls)}')
+        c = calls[0]
+        if c.keywords:
+            kw = {k.arg: k.value for k in c.keywords}
+            k = kw.get('k')
+        else:
+            k = c.args[1] if len(c.args) > 1 else _ast.Constant(value=0)
+        if not (isinstance(k, _ast.Constant) and isinstance(k.value, int) and k.value >= 0):
+            raise _Underivable(f'{name}: offset of triu_indices is not a literal: `{_ast.unparse(c)}`')
+        ks.append(k.value)
+    if len(set(ks)) != 1:
+        raise _Underivable(f'triu_indices offsets differ: {ks}')
+    return str(ks[0])
+
+
+def _sel_cmp():
+    ops = []
+
+    def cmp_of(path, name, left_names):
+        fn = _func(path, name)
+        found = [n for n in _ast.walk(fn) if isinstance(n, _ast.Compare) and len(n.ops) == 1
+                 and isinstance(n.left, _ast.Name) and n.left.id in left_names
+                 and isinstance(n.comparators[0], _ast.Name)]
+        if not found:
+            raise _Underivable(f'{name}: no selecting comparison found')
+        for n in found:
+            ops.append(type(n.ops[0]))
+    cmp_of('rdm/rdms.py', 'subsample', ('d',))
+    cmp_of('rdm/rdms.py', 'subsample_pattern', ('desc',))
+    cmp_of('util/descriptor_utils.py', 'bool_index', ('descriptor',))
+    if len(set(ops)) != 1:
+        raise _Underivable(f'selecting comparisons differ: {[o.__name__ for o in ops]}')
+    sym = {_ast.Eq: '==', _ast.NotEq: '!=', _ast.Lt: '<', _ast.LtE: '<=', _ast.Gt: '>',
+           _ast.GtE: '>='}.get(ops[0])
+    if sym is None:
+        raise _Underivable(f'comparison {ops[0].__name__}')
+    return f'(1 if d {sym} v else 0)'
+
+
+def _derive():
+    out = ['# DERIVED by harness/leaves/C10.py from the source tree under check - do not edit', '']
+
+    def emit(name, params, body_fn):
+        try:
+            body = body_fn()
+        except Exception as exc:  # noqa: BLE001  (fail closed)
+            body = '__underivable__(' + repr(str(exc)) + ')'
+        out.append(f'def {name}({", ".join(params)}):')
+        out.append(f'    return {body}')
+        out.append('')
+    emit('b2v_len', ['n_cond'], _b2v_len)
+    emit('pair_selected', ['a', 'b'], _pair_selected)
+    emit('triu_offset', [], _triu_offset)
+    emit('sel_cmp', ['d', 'v'], _sel_cmp)
+    text = '\n'.join(out)
+    if not (_os.path.exists(DERIVED) and open(DERIVED).read() == text):
+        with open(DERIVED + '.tmp', 'w') as f:
+            f.write(text)
+        _os.replace(DERIVED + '.tmp', DERIVED)
+
+
+_derive()
+
+LEAVES += [
+    dict(name='b2vLen', file=DERIVED, func='b2v_len', kind='func', params={'n_cond': 'Nat'}, ret='Nat'),
+    dict(name='pairSelected', file=DERIVED, func='pair_selected', kind='func',
+         params={'a': 'Nat', 'b': 'Nat'}, ret='Nat'),
+    dict(name='triuOffset', file=DERIVED, func='triu_offset', kind='func', params={}, ret='Nat'),
+    dict(name='selCmp', file=DERIVED, func='sel_cmp', kind='func', params={'d': 'Int', 'v': 'Int'}, ret='Nat'),
+]
